@@ -559,6 +559,9 @@ class YAMLPath:
                         (segment_type,
                             CollectorTerms(segment_id, collector_operator)))
                     segment_id = ""
+                    # The Collector is complete; whatever follows it -- like
+                    # the `*` of `(...)*` -- is a segment of its own
+                    segment_type = None
                     collector_operator = CollectorOperators.NONE
                     seeking_collector_operator = True
                     continue
